@@ -1463,6 +1463,140 @@ theorem gen_sections_sound (sq : SecSeq) (hm : sq ∈ Gen.sectionSeqs) (hn : ski
 
 example : applyOk [.assign, .try, .assign, .try, .retValidate] = true := by decide
 
+/-- an apply sequence with helper-scoped early returns that stay inside the body (`skipsInside`) still ends in
+`return cfg.Validate()` on EVERY path: it refuses, or it was validated, dropped no error, did not re-run Default and executed at
+most the body's assignments — whichever guards fire (any oracle), from any pending jump `k` that stays inside the body -/
+theorem skips_sound (o : Oracle) (body : List Ev) : ∀ (i k : Nat) (s : St), skipsInside body = true → k ≤ body.length →
+    interp o (body ++ [.retValidate]) i k s = .err ∨
+    ∃ s', interp o (body ++ [.retValidate]) i k s = .ok true s' ∧ o.valid = true ∧ s'.dropped = s.dropped ∧ s'.dflt = s.dflt ∧
+      s.assigned ≤ s'.assigned ∧ s'.assigned ≤ s.assigned + countAssign body := by
+  induction body with
+  | nil =>
+    intro i k s _ hk
+    have : k = 0 := by simpa using hk
+    subst this
+    cases hv : o.valid <;> simp [interp, hv]
+  | cons e es ih =>
+    intro i k s hs hk
+    have hes : skipsInside es = true := by
+      cases e <;> simp_all [skipsInside, isBody]
+    have hca : countAssign es ≤ countAssign (e :: es) := by
+      simp only [countAssign, List.filter_cons]; split <;> simp
+    cases k with
+    | succ k' =>
+      have hk' : k' ≤ es.length := by simpa using hk
+      simp only [List.cons_append, interp]
+      rcases ih (i+1) k' s hes hk' with h | ⟨s', h1, h2, h3, h4, h5, h6⟩
+      · left; exact h
+      · right; exact ⟨s', h1, h2, h3, h4, h5, by omega⟩
+    | zero =>
+      cases e <;> simp [skipsInside, isBody] at hs
+      · -- assign
+        simp only [List.cons_append, interp]
+        rcases ih (i+1) 0 { s with assigned := s.assigned + 1 } hes (Nat.zero_le _) with h | ⟨s', h1, h2, h3, h4, h5, h6⟩
+        · left; exact h
+        · right
+          have : countAssign (Ev.assign :: es) = countAssign es + 1 := by simp [countAssign]
+          refine ⟨s', h1, h2, h3, h4, ?_, ?_⟩ <;> simp at h5 h6 ⊢ <;> omega
+      · -- try
+        simp only [List.cons_append, interp]
+        cases hf : o.fails i
+        · simp only [Bool.false_eq_true, if_false]
+          rcases ih (i+1) 0 s hes (Nat.zero_le _) with h | ⟨s', h1, h2, h3, h4, h5, h6⟩
+          · left; exact h
+          · right; exact ⟨s', h1, h2, h3, h4, h5, by omega⟩
+        · left; simp
+      · -- skip n
+        rename_i n
+        simp only [List.cons_append, interp]
+        cases hf : o.fires i
+        · simp only [Bool.false_eq_true, if_false]
+          rcases ih (i+1) 0 s hes (Nat.zero_le _) with h | ⟨s', h1, h2, h3, h4, h5, h6⟩
+          · left; exact h
+          · right; exact ⟨s', h1, h2, h3, h4, h5, by omega⟩
+        · simp only [if_true]
+          rcases ih (i+1) n s hes hs.1 with h | ⟨s', h1, h2, h3, h4, h5, h6⟩
+          · left; exact h
+          · right; exact ⟨s', h1, h2, h3, h4, h5, by omega⟩
+
+/-- **soundness of the restapi shape** (`applyOkSkips`, the allow-listed helper-scoped early return of `tlsOptions`): whichever guard
+fires and whichever step fails, the apply function refuses or returns what `Validate()` said, with no dropped error -/
+theorem applyOkSkips_sound (o : Oracle) (a : List Ev) (h : applyOkSkips a = true) (i : Nat) (s : St) :
+    interp o a i 0 s = .err ∨
+    ∃ s', interp o a i 0 s = .ok true s' ∧ o.valid = true ∧ s'.dropped = s.dropped ∧ s'.dflt = s.dflt ∧
+      s.assigned ≤ s'.assigned ∧ s'.assigned ≤ s.assigned + countAssign a := by
+  simp only [applyOkSkips, Bool.and_eq_true] at h
+  obtain ⟨⟨h1, hs⟩, _⟩ := h
+  have hl : a.getLast? = some .retValidate := by simpa using h1
+  obtain ⟨ys, rfl⟩ := List.getLast?_eq_some_iff.mp hl
+  have hc : countAssign (ys ++ [Ev.retValidate]) = countAssign ys := by
+    simp [countAssign, List.filter_append]
+  have hs' : skipsInside ys = true := by simpa using hs
+  rw [hc]
+  exact skips_sound o ys i 0 s hs' (Nat.zero_le _)
+
+example : applyOkSkips [.assign, .skip 2, .try, .assign, .assign, .retValidate] = true := by decide
+
+/-- the allow-listed sections of the regenerated table have that shape … -/
+theorem table_skip_sections :
+    (Gen.sectionSeqs.filter fun s => skipAllowed.contains s.name).all (fun s => applyOkSkips s.apply) = true := by decide
+
+/-- … so every accepted apply run of such a section (restapi) was validated and dropped no error -/
+theorem gen_skip_sections_sound (sq : SecSeq) (hm : sq ∈ Gen.sectionSeqs) (hn : skipAllowed.contains sq.name = true)
+    (o : Oracle) (i : Nat) (s : St) :
+    interp o sq.apply i 0 s = .err ∨
+    ∃ s', interp o sq.apply i 0 s = .ok true s' ∧ o.valid = true ∧ s'.dropped = s.dropped ∧ s'.dflt = s.dflt ∧
+      s.assigned ≤ s'.assigned ∧ s'.assigned ≤ s.assigned + countAssign sq.apply := by
+  have h := table_skip_sections
+  rw [List.all_eq_true] at h
+  exact applyOkSkips_sound o sq.apply (h sq (List.mem_filter.mpr ⟨hm, hn⟩)) i s
+
+/-- refutation: a jump that is NOT inside the body (passes `return cfg.Validate()`) is stuck / unvalidated — `skipsInside` is needed -/
+theorem skip_past_validate_not_validated :
+    skipsInside [.assign, .skip 2, .assign] = false ∧
+    ∀ s', interp ⟨fun _ => false, fun _ => true, true⟩ [.assign, .skip 2, .assign, .retValidate] 0 0 fresh ≠ .ok true s' := by
+  refine ⟨by decide, fun s' => ?_⟩
+  simp [interp]
+
 end Seq
+
+/-! ## hashicorp/raft ValidateConfig (round 8c) -/
+namespace HRaft
+
+/-- `ValidateConfig` accepts exactly the configurations hashicorp/raft calls valid … -/
+theorem hraft_accept_iff (r : Vals) : validate (env r) conjs = .accept ↔ Valid r := by
+  simp [validate, conjs, Conj.fires, Cond.eval, Tm.eval, Env.get, env, List.find?, cmpVal, Op.holds, or3, Valid, ms]
+  by_cases h1 : r.pv < 1 <;> by_cases h2 : 3 < r.pv <;> simp [h1, h2] <;> (try split) <;> (try simp) <;> omega
+/-- … and rejects all others: the verdict is never `unknown` once the eight fields are known -/
+theorem hraft_reject_iff (r : Vals) : validate (env r) conjs = .reject ↔ ¬ Valid r := by
+  simp [validate, conjs, Conj.fires, Cond.eval, Tm.eval, Env.get, env, List.find?, cmpVal, Op.holds, or3, Valid, ms]
+  by_cases h1 : r.pv < 1 <;> by_cases h2 : 3 < r.pv <;> simp [h1, h2] <;> (try split) <;> (try simp) <;> omega
+
+/-- **the tie**: the raft section's regenerated Validate conjuncts are its own six followed by exactly hraft's eleven; none is opaque -/
+theorem table_raft_hraft :
+    (Gen.validates.find? (·.1 == "raft")).map (fun x => x.2.1.drop 6) = some conjs := by decide
+
+theorem table_raft_no_opaque :
+    ((Gen.validates.find? (·.1 == "raft")).map (fun x => x.2.1.all (fun c => c.cond != .opaque && c.guard != some .opaque))) = some true := by decide
+
+/-- LoadJSON of the raft section accepts ⇒ the RaftConfig is valid in hashicorp/raft's sense (`load_accept_valid` for raft) -/
+theorem hraft_load_accept_valid (r : Vals) (e : Env) (h : loadSection (some (env r)) conjs = some e) : Valid r := by
+  by_cases hv : validate (env r) conjs = .reject
+  · simp [loadSection, hv] at h
+  · exact Classical.not_not.mp (fun hn => hv ((hraft_reject_iff r).mpr hn))
+
+/-- … and an invalid one is refused at load time -/
+theorem hraft_load_refuses (r : Vals) (h : ¬ Valid r) : loadSection (some (env r)) conjs = none :=
+  load_refuses_rejected _ _ ((hraft_reject_iff r).mpr h)
+
+/-- boundary cases on both sides of each bound (protocol 0|1..3|4, LocalID, 5ms-1|5ms, 1ms-1|1ms, 0|1..1024|1025,
+lease = / > heartbeat, election = / < heartbeat) -/
+theorem hraft_boundaries : boundaryCases.all (fun c => validate (env c.1) conjs == c.2) = true := by decide
+
+example : Valid dflt := (hraft_accept_iff dflt).mp (by decide)
+example : loadSection (some (env dflt)) conjs = some (env dflt) := by decide
+example : ¬ Valid { dflt with ll := 1000 * ms + 1 } := (hraft_reject_iff _).mp (by decide)
+
+end HRaft
 
 end CV.C15
